@@ -88,7 +88,8 @@ func parsePolicy(s string) log.BufferFullPolicy {
 	return p
 }
 
-var allLevels = log.LevelRange{MinLevel: log.InfoLevel, MaxLevel: log.MaxLevel}
+// the logger's own range has a lower AND an upper bound: events below (kind d) and at or above it (kind u) are not enabled
+var allLevels = log.LevelRange{MinLevel: log.InfoLevel, MaxLevel: log.PanicLevel}
 
 // A policy written "<policy>+L" gives the logger its own layout and the appender reference the range [INFO, MAX): the worker
 // then formats the event itself and hands bytes to the reference's level filter (the other delivery path of the worker).
@@ -119,8 +120,18 @@ func submitTo(l log.Logger, kind byte, id string) {
 		e.Level = log.DebugLevel
 		e.Fields = []log.Field{log.Msg("<id:" + id + ">")}
 		l.Append(e)
+	case 'u': // disabled level: at or above the (exclusive) upper bound of the logger's range
+		e := log.GetEvent()
+		e.Level = []log.Level{log.PanicLevel, log.FatalLevel}[len(id)%2]
+		e.Fields = []log.Field{log.Msg("<id:" + id + ">")}
+		l.Append(e)
 	default:
-		l.Write([]byte("<id:" + id + ">"))
+		// the caller owns its buffer again as soon as Write returns: it is overwritten at once
+		buf := []byte("<id:" + id + ">")
+		l.Write(buf)
+		for i := range buf {
+			buf[i] = '#'
+		}
 	}
 }
 
@@ -210,7 +221,7 @@ func runC04Case(line string) string {
 				if !waitSignal(done, 80*time.Millisecond) {
 					flag = "b"
 					blocked = append(blocked, done)
-				} else if kind != 'd' && !holding {
+				} else if kind != 'd' && kind != 'u' && !holding {
 					if !waitSignal(g.arrived, 3*time.Second) {
 						fail = "worker-did-not-take"
 					}
@@ -272,7 +283,7 @@ func runC04Concurrent(cases []string, out *bufio.Writer, _ []string) {
 						kind = 'w'
 					}
 					if disEvery > 0 && n%disEvery == disEvery-1 {
-						kind = 'd'
+						kind = []byte{'d', 'u'}[(n/disEvery)%2]
 					}
 					submitTo(l, kind, fmt.Sprintf("%d.%d", p, n))
 				}
